@@ -454,6 +454,8 @@ def _check(ctx: Ctx) -> None:
 
     from ..engines.velbins import topbin_rules
     topbin_rules(ctx)
+    from .c02 import config_rules
+    config_rules(ctx)
 
     # ---- DUR (parser side): every bar line is recorded in every track, at the clock after the bar was closed, so that the
     # decoded duration reaches the end of the last bar
